@@ -1,7 +1,7 @@
 #!/bin/bash
 # run every registered check (tier $1, default quick) on the current tree; prints one line per check
 tier=${1:-quick}
-cd /verif
+cd "$(dirname "$(readlink -f "$0")")/.." && mkdir -p .work
 for c in $(/venv/bin/python -c "import json;print(' '.join(x['property_id'] for x in json.load(open('MANIFEST.json'))['checks']))"); do
   start=$(date +%s)
   ./check $c $tier > .work/run_$c.log 2>&1; rc=$?
